@@ -47,6 +47,35 @@ V_OK = ['months >= 6', 'category == "Food"', 'sum(payments) / 12', 'total > 1000
         'category == "x=y"', 'months == payments[0]']
 SYNTAX_BAD = ['contains("NETFLIX"', 'amount >', '1 +* 2', 'x = 3', '"unterminated', 'a b', 'contains("A"))', 'import os',
               'amount > 5 and', ')(']
+# well-formed Python that is NOT in the expression language (a node kind outside the whitelist): rejected at load like a syntax error,
+# with the line - the loader's two failure paths (cannot be parsed / parses but is not allowed) are one clause of the property
+UNSAFE_BAD = ['amount ** 2 > 10000', 'lambda: 1', '{1: 2} == 1', 'amount | 1 == 1', 'amount is None', 'f"{amount}" == "1"', '{1, 2} == 1',
+              'amount @ 2 == 1', 'amount << 1 == 2', '~amount == 1', 'amount // 2 == 1', 'description[1:2] == "a"', '(1, 2) == 1', 'amount & 1 == 1',
+              '[*description] == 1', '... == 1', 'amount ^ 1 == 1', 'amount >> 1 == 1', 'b"x" == 1' if False else 'not amount is 5']
+_OUTSIDE = {}
+
+
+def outside_language(e):
+    """e parses as a Python expression AND contains a node kind that is not in ALLOWED_NODES (table read from the source text)"""
+    if e not in _OUTSIDE:
+        import ast
+        from ..translate import expr_tables
+        try:
+            src = common.read(os.path.join(common.SRC, 'expr_parser.py'))
+            tree = ast.parse(src)
+            allowed = None
+            for n in ast.walk(tree):
+                if isinstance(n, ast.Assign) and any(isinstance(t, ast.Name) and t.id == 'ALLOWED_NODES' for t in n.targets) and isinstance(n.value, ast.Set):
+                    allowed = {x.attr for x in n.value.elts if isinstance(x, ast.Attribute)}
+            with warnings.catch_warnings():
+                warnings.simplefilter('ignore')
+                t = ast.parse(e, mode='eval')
+            _OUTSIDE[e] = bool(allowed) and any(type(x).__name__ not in allowed for x in ast.walk(t))
+        except Exception:                                                # noqa
+            _OUTSIDE[e] = False
+    return _OUTSIDE[e]
+
+
 OTHER_BAD = ['lambda: 1', 'f"{amount}"', '{1: 2}', 'x if y else', '__import__("os").system("x")', 'a.b.c', '[x for x in y]']
 M_NAMES = ['Netflix', 'Large Purchase', 'Uber Eats', 'A&B [x]', 'Café Zoë', 'amazon', 'X', 'Costco #12', 'a: b',
            'k = v', 'Tag-Only', '7-Eleven', 'Big Box', 'match']
@@ -639,8 +668,11 @@ def targeted(F, r):
             out.append(('reject:bad-priority', replace(have[0], f'priority: {badp}'), have[0] + 1))
         else:
             out.append(('reject:bad-priority', insert_after(j, f'priority: {badp}'), j + 2))
-    # syntactically invalid expression
+    # syntactically invalid expression, or a well-formed one outside the language
     bad = r.choice(SYNTAX_BAD)
+    unsafe = [e for e in UNSAFE_BAD if outside_language(e)]
+    if unsafe and r.random() < 0.5:
+        bad = r.choice(unsafe)
     ex = where(lambda m: m[1] == s and m[2] in ('match', 'let', 'field', 'filter', 'var'))
     i = r.choice(ex)
     key = meta[i][2]
